@@ -2,16 +2,45 @@
 C03 — simulator amplitudes are the bosonic Fock-space amplitudes of the circuit.
 
 Model: LW.Model.Fock (fockBasis, partitionIdx, permRC, addHeralds, simulate).  For generated
-circuits (heralds with in != out, loss, groups) and generated input/output lists (bunched, vacuum,
-malformed) the implementation's Simulator is compared with the model (amplitudes, order of the
-input/output lists, exception class) and with the property's own formula evaluated on the
-implementation's U_full (oracle), plus the unit-vector clause for lossless herald-free circuits.
+circuits (heralds with in != out and 0-3 photons, loss, groups) and generated REQUESTS the
+implementation's Simulator is compared with the model (amplitudes, order of the input/output lists,
+exception class) and with the property's own clauses evaluated on the implementation (oracle):
+
+  * a request is a pair of ARGUMENT SHAPES as the public `Simulator.simulate(inputs, outputs)` accepts
+    them — one bare State / a list / a tuple for the inputs, None / one bare State / a list / a tuple
+    for the outputs, lists with repeated equal States (the same object or equal-but-distinct objects,
+    also shared between the input and the output side), empty lists — crossed with valid states and
+    one INVALID state of every kind (too short, too long with empty extra modes, a photon in an extra
+    mode, full length including the herald modes / the loss modes, wrong photon number, negative /
+    bool / float occupations; wherever possible with the SAME total photon number as the valid states
+    so that only the validation of that one state can reject it) in every position (first, middle,
+    last; input side and output side);
+  * oracle: the request is rejected exactly when a state is invalid (decided by an independent
+    predicate on the plain occupation lists; the exception CLASS is compared with the model),
+    otherwise the array has one row per input and one column per output in the order given, entry
+    (i, j) and result[in, out] equal perm(U_full[out|in]) / sqrt(prod factorials) evaluated
+    independently on the implementation's own U_full, plus the unit-vector clause for lossless
+    herald-free circuits.
+
+The model takes lists only; a bare State is sent to it as the one-element list (the documented
+meaning of that shape).  Tuples are not a documented shape: for them the implementation may also
+answer TypeError, but must never compute an invalid request and never return a wrong amplitude.
+
+Histories are part of a case: one Simulator first serves the recorded requests on OTHER circuits
+(its circuit is reassigned) and / or the valid form of the same request, then the request under test.
+
+A directed corpus (fixed circuits: lossless, lossy, heralded with 0/1/2/3 photons and in != out
+modes, with and without loss) runs first and crosses every shape with every kind of invalid state
+in every position; the randomised stream follows.
 """
 
 from __future__ import annotations
 
+import copy
 import json
 import math
+import random
+from fractions import Fraction
 
 import numpy as np
 
@@ -29,52 +58,399 @@ TRUSTED = [
 ]
 ASSUMPTIONS = ["circuits <= 5 user modes per level, total modes <= 10, <= 4 photons in the correspondence check"]
 
+KINDS = ["short", "long0", "longp", "full", "fullloss", "more", "fewer", "neg", "neg_keep",
+         "bool", "bool_all", "float", "float_int", "float_pair"]
+
 
 def to_state(s):
     return lw.State(list(s))
 
 
+# --------------------------------------------------------------------------- requests
+
+
+def is_int(x) -> bool:
+    return isinstance(x, int) and not isinstance(x, bool)
+
+
+def photons_of(s) -> int:
+    return sum(x for x in s if is_int(x))
+
+
+def corrupt(rng, kind: str, side: str, c, nph: int):
+    """one invalid state of the given kind for circuit c (None when the kind does not apply);
+    kinds keep the total photon number equal to nph whenever that is possible, so that the only
+    thing that can reject the request is the validation of this state"""
+    im = c.input_modes
+    nloss = np.array(c.U_full).shape[0] - c.n_modes
+    her = c.heralds["input" if side == "in" else "output"]
+    if rng.random() < 0.3:  # the herald layout of the OTHER side (in != out modes)
+        her = c.heralds["output" if side == "in" else "input"]
+    base = fg.rand_state(rng, im, nph)
+    if kind == "short":
+        return fg.rand_state(rng, im - 1, nph) if im >= 2 else []
+    if kind == "long0":
+        return base + [0] * rng.choice([1, 1, 2])
+    if kind == "longp":
+        if nph == 0:
+            return base + [1]
+        return fg.rand_state(rng, im, nph - 1) + rng.choice([[1], [1], [0, 1]])
+    if kind == "full":
+        return fg.add_heralds(base, her) if her else None
+    if kind == "fullloss":
+        return fg.add_heralds(base, her) + [0] * nloss if nloss else None
+    if kind == "more":
+        return fg.rand_state(rng, im, nph + 1)
+    if kind == "fewer":
+        return fg.rand_state(rng, im, nph - 1) if nph >= 1 else None
+    if kind == "neg":
+        base[rng.randrange(im)] = -rng.choice([1, 1, 2])
+        return base
+    if kind == "neg_keep":  # total photon number unchanged
+        if im < 2:
+            return None
+        a, b = rng.sample(range(im), 2)
+        base = fg.rand_state(rng, im, nph)
+        base[b] += base[a] + 1
+        base[a] = -1
+        return base
+    if kind == "bool":  # bool(0)/bool(1) keep the photon number
+        a = rng.randrange(im)
+        cand = [k for k in range(im) if base[k] <= 1]
+        if cand and rng.random() < 0.8:
+            a = rng.choice(cand)
+            base[a] = bool(base[a])
+        else:
+            base[a] = True
+        return base
+    if kind == "bool_all":
+        if nph > im:
+            return None
+        on = set(rng.sample(range(im), nph))
+        return [k in on for k in range(im)]
+    if kind == "float":
+        base[rng.randrange(im)] = rng.choice([0.5, 1.5, -0.5, float("nan")])
+        return base
+    if kind == "float_int":  # integral float: same value, wrong type
+        a = rng.randrange(im)
+        base[a] = float(base[a])
+        return base
+    if kind == "float_pair":  # two halves: the total is still nph
+        if im < 2 or nph < 1:
+            return None
+        base = fg.rand_state(rng, im, nph - 1)
+        a, b = rng.sample(range(im), 2)
+        base[a] += 0.5
+        base[b] += 0.5
+        return base
+    raise AssertionError(kind)
+
+
+class Ids:
+    def __init__(self, start: int = 0) -> None:
+        self.k = start
+
+    def __call__(self) -> int:
+        self.k += 1
+        return self.k
+
+
+def add_duplicates(rng, states: list, ids: list, fresh: Ids, times: int) -> None:
+    """repeat equal States inside one list: the same object (same id) or an equal new object"""
+    for _ in range(times):
+        if not states:
+            return
+        p = rng.randrange(len(states))
+        q = rng.randint(0, len(states))
+        st, oid = list(states[p]), (ids[p] if rng.random() < 0.5 else fresh())
+        states.insert(q, st)
+        ids.insert(q, oid)
+
+
+def gen_request(ctx: Ctx, rng, c, nph: int) -> dict:
+    im = c.input_modes
+    fresh = Ids()
+    n_in = rng.choice([1, 1, 1, 2, 3, 3])
+    inputs = [fg.rand_state(rng, im, nph) for _ in range(n_in)]
+    in_ids = [fresh() for _ in inputs]
+    in_shape = "list"
+    if n_in == 1 and rng.random() < 0.5:
+        in_shape = "single"
+    elif rng.random() < 0.12:
+        in_shape = "tuple"
+    out_shape = rng.choice(["none", "none", "none", "list", "list", "list", "single", "single", "tuple"])
+    outputs = out_ids = None
+    if out_shape != "none":
+        n_out = 1 if out_shape == "single" else rng.randint(1, 4)
+        outputs = [fg.rand_state(rng, im, nph) for _ in range(n_out)]
+        out_ids = [fresh() for _ in outputs]
+    # repeated equal states (same object / equal object), also across the two sides
+    if in_shape != "single" and rng.random() < 0.3:
+        add_duplicates(rng, inputs, in_ids, fresh, rng.choice([1, 1, 2]))
+    if outputs is not None and out_shape != "single":
+        if rng.random() < 0.4:
+            add_duplicates(rng, outputs, out_ids, fresh, rng.choice([1, 1, 2]))
+        if rng.random() < 0.2:
+            p = rng.randrange(len(inputs))
+            q = rng.randint(0, len(outputs))
+            outputs.insert(q, list(inputs[p]))
+            out_ids.insert(q, in_ids[p] if rng.random() < 0.6 else fresh())
+    # empty lists
+    r = rng.random()
+    if r < 0.03 and in_shape == "list":
+        inputs, in_ids = [], []
+    elif r < 0.06 and out_shape == "list":
+        outputs, out_ids = [], []
+    case = {"inputs": inputs, "outputs": outputs, "in_shape": in_shape, "out_shape": out_shape,
+            "in_ids": in_ids, "out_ids": out_ids, "bad": None}
+    # one invalid state
+    if rng.random() < 0.3:
+        side = rng.choice(["in", "out", "out"])
+        kind = rng.choice(KINDS)
+        st = corrupt(rng, kind, side, c, nph)
+        if st is not None:
+            place(rng, case, side, st, fresh, rng.choice(["first", "middle", "last", "only"]), im, nph)
+            case["bad"] = f"{side}:{kind}"
+    # history: the valid form of the same request goes through the same Simulator first
+    if rng.random() < 0.15:
+        case["warm"] = True
+    return case
+
+
+def place(rng, case: dict, side: str, st: list, fresh: Ids, where: str, im: int, nph: int) -> None:
+    """put the invalid state st into the request (replacing a valid one)"""
+    if side == "out" and case["outputs"] is None:
+        case["outputs"], case["out_ids"] = [fg.rand_state(rng, im, nph)], [fresh()]
+        case["out_shape"] = rng.choice(["single", "single", "list", "list", "tuple"])
+    key, ikey, skey = ("inputs", "in_ids", "in_shape") if side == "in" else ("outputs", "out_ids", "out_shape")
+    lst, ids = case[key], case[ikey]
+    if where == "only" or not lst:
+        lst[:], ids[:] = [st], [fresh()]
+        return
+    if case[skey] != "single" and where == "middle":
+        while len(lst) < 3:
+            lst.append(fg.rand_state(rng, im, nph))
+            ids.append(fresh())
+    p = {"first": 0, "last": len(lst) - 1}.get(where, len(lst) // 2)
+    lst[p], ids[p] = st, fresh()
+
+
+def bump_heralds(rng, prog: list) -> list:
+    """the tree generator declares heralds with 0-2 photons; raise one of them to 2 or 3"""
+    hs = [k for k, op in enumerate(prog) if op[0] == "herald"]
+    if not hs or rng.random() >= 0.25:
+        return prog
+    prog = copy.deepcopy(prog)
+    prog[rng.choice(hs)][2] = rng.choice([2, 3, 3])
+    return prog
+
+
 def gen_case(ctx: Ctx, rng) -> dict:
-    prog = fg.gen_circuit(ctx, rng, max_depth=2)
+    prog = bump_heralds(rng, fg.gen_circuit(ctx, rng, max_depth=2))
     pool = fg.build_impl(prog)
     c = pool["c1"]
-    im = c.input_modes
     nph = rng.choice([0, 1, 1, 2, 2, 2, 3, 3, 4] if ctx.thorough else [0, 1, 1, 2, 2, 3])
     # the model's permanent is the n!-term expansion: bound user + herald photons
     cap = 6 if ctx.thorough else 5
     nph = max(0, min(nph, cap - 1 - fg.herald_photons(c)))
     if fg.herald_photons(c) > cap - 1:
         return None
-    n_in = rng.choice([1, 1, 2, 3])
-    inputs = [fg.rand_state(rng, im, nph) for _ in range(n_in)]
-    outputs = None
-    if rng.random() < 0.4:
-        outputs = [fg.rand_state(rng, im, nph) for _ in range(rng.randint(1, 4))]
-    bad = None
-    if rng.random() < 0.2:
-        bad = rng.choice(["len", "neg", "float", "bool", "photons_in", "photons_out", "out_len", "out_neg"])
-        if bad == "len":
-            inputs[-1] = inputs[-1] + [0]
-        elif bad == "neg" and im:
-            inputs[0][rng.randrange(im)] = -1
-        elif bad == "float" and im:
-            inputs[0][rng.randrange(im)] = 0.5
-        elif bad == "bool" and im:
-            inputs[0][rng.randrange(im)] = True
-        elif bad == "photons_in":
-            inputs.append(fg.rand_state(rng, im, nph + 1))
-        elif bad == "photons_out":
-            outputs = [fg.rand_state(rng, im, nph + 1)]
-        elif bad == "out_len":
-            outputs = [fg.rand_state(rng, im + 1, nph)]
-        elif bad == "out_neg" and im:
-            outputs = [fg.rand_state(rng, im, nph)]
-            outputs[0][0] = -2
-    return {"prog": prog, "inputs": inputs, "outputs": outputs, "bad": bad, "shared_sim": rng.random() < 0.5}
+    if c.input_modes == 0:
+        return {"prog": prog, "inputs": [[]], "outputs": None, "bad": None}
+    case = gen_request(ctx, rng, c, nph)
+    case = {"prog": prog, **case}
+    # half of the cases go through ONE Simulator that already served the previous one or two requests
+    # on OTHER circuits (the circuit is reassigned), so that anything memoised per Simulator / per
+    # State across circuits shows up; the history is part of the case, so a replay is self-contained
+    recent = ctx.__dict__.setdefault("_recent", [])
+    if recent and rng.random() < 0.5:
+        case["history"] = recent[-rng.choice([1, 1, 2]):]
+    recent.append(request_only(case))
+    del recent[:-2]
+    return case
+
+
+REQ_KEYS = ("prog", "inputs", "outputs", "in_shape", "out_shape", "in_ids", "out_ids")
+
+
+def request_only(case: dict) -> dict:
+    return {k: case[k] for k in REQ_KEYS if k in case}
 
 
 def occ_json(s):
-    return [x if isinstance(x, int) and not isinstance(x, bool) else ("b" if isinstance(x, bool) else "f") for x in s]
+    return [x if is_int(x) else ("b" if isinstance(x, bool) else "f") for x in s]
+
+
+# --------------------------------------------------------------------------- directed corpus
+
+
+def corpus_circuits() -> list[tuple[str, list]]:
+    F = Fraction
+    out = []
+
+    def body(n, lossy):
+        ops = [["new", "c1", n],
+               cg.op_bs("c1", 0, 1, F(3, 5), F(4, 5), "Rx", (F(12, 13), F(5, 13)) if lossy else None),
+               cg.op_bs("c1", 1, 2, F(5, 13), F(12, 13), "H"),
+               cg.op_bs("c1", 0, 2, F(8, 17), F(15, 17), "Rx")]
+        if n > 3:
+            ops.append(cg.op_bs("c1", 2, 3, F(4, 5), F(3, 5), "H", (F(4, 5), F(3, 5)) if lossy else None))
+            ops.append(cg.op_bs("c1", 1, 3, F(15, 17), F(8, 17), "Rx"))
+        if lossy:
+            ops.append(cg.op_loss("c1", 0, F(15, 17), F(8, 17)))
+        ops.append(cg.op_bs("c1", 0, 1, F(5, 13), F(12, 13), "Rx"))
+        return ops
+
+    out.append(("lossless", body(3, False)))
+    out.append(("lossy", body(3, True)))
+    for k, lossy, (hi, ho) in [(0, False, (1, 2)), (1, True, (3, 0)), (2, True, (0, 2)), (3, False, (2, 1)), (2, False, (1, 1))]:
+        out.append((f"herald{k}{'_lossy' if lossy else ''}", body(4, lossy) + [["herald", "c1", k, hi, ho]]))
+    # two heralds (0 and 1 photons) around the user modes
+    out.append(("herald0+1_lossy", body(4, True) + [["herald", "c1", 0, 0, 3], ["herald", "c1", 1, 2, 0]]))
+    return out
+
+
+def corpus(ctx: Ctx):
+    """every shape x every kind of invalid state x every position, plus the valid shapes with repeated
+    states, on the fixed circuits; the structure is fixed, the seed only picks the occupations"""
+    rng = random.Random(f"C03-corpus-{ctx.seed}")
+    n = 0
+    for name, prog in corpus_circuits():
+        pool = fg.build_impl(prog)
+        c = pool["c1"]
+        im = c.input_modes
+        nph = max(0, min(2, 4 - fg.herald_photons(c)))
+        fresh = Ids(100)
+
+        def valid(k):
+            return [fg.rand_state(rng, im, nph) for _ in range(k)]
+
+        def mk(inputs, in_shape, outputs, out_shape, bad=None, in_ids=None, out_ids=None, warm=False):
+            return {"prog": prog, "inputs": inputs, "outputs": outputs, "in_shape": in_shape,
+                    "out_shape": out_shape, "in_ids": in_ids or [fresh() for _ in inputs],
+                    "out_ids": None if outputs is None else (out_ids or [fresh() for _ in outputs]),
+                    "bad": bad, "corpus": name, **({"warm": True} if warm else {})}
+
+        # ---- valid requests: all shapes, repeated states
+        a, b, d = valid(3)
+        x, y, z = valid(3)
+        in_forms = [([a], "single", None), ([a], "list", None), ([a, b, d], "list", None),
+                    ([a, b, a], "list", [1, 2, 1]), ([a, a, b], "list", [1, 3, 2]), ([a, b], "tuple", None),
+                    ([], "list", None)]
+        out_forms = [(None, "none", None), ([x], "single", None), ([x], "list", None), ([x, y, z], "list", None),
+                     ([x, y, x, z], "list", [11, 12, 11, 13]), ([x, x, y], "list", [11, 14, 12]),
+                     ([a, x, a], "list", [1, 11, 1]), ([x, y], "tuple", None), ([], "list", None)]
+        for fi in in_forms:
+            for fo in out_forms:
+                yield mk(list(map(list, fi[0])), fi[1], None if fo[0] is None else list(map(list, fo[0])), fo[1],
+                         in_ids=fi[2], out_ids=fo[2])
+        # ---- photon-number sweep (vacuum, one photon, all the budget bunched in one mode)
+        top = max(0, 4 - fg.herald_photons(c))
+        for k in sorted({0, 1, top}):
+            if k > top:
+                continue
+            v = [fg.rand_state(rng, im, k), [k] + [0] * (im - 1), [0] * (im - 1) + [k]]
+            yield mk([v[0]], "single", None, "none")
+            yield mk([v[1], v[2]], "list", [v[2], v[0], v[1]], "list")
+            yield mk([v[2]], "list", [v[1]], "single")
+        # ---- one invalid state
+        for kind in KINDS:
+            for side in ("out", "in"):
+                arrangements = [("single", 0, 1), ("list", 0, 1), ("list", 0, 3), ("list", 1, 3), ("list", 2, 3),
+                                ("tuple", 1, 2)]
+                for shape, pos, ln in arrangements:
+                    n += 1
+                    st = corrupt(rng, kind, side, c, nph)
+                    if st is None:
+                        ctx.count(f"corpus:not_applicable:{kind}")
+                        continue
+                    lst = valid(ln)
+                    lst[pos] = st
+                    other_n = 1 + (n % 2) * 2
+                    if side == "out":
+                        yield mk(valid(other_n), "single" if other_n == 1 and n % 4 < 2 else "list", lst, shape,
+                                 bad=f"out:{kind}", warm=(n % 5 == 0))
+                    else:
+                        oshape = ["none", "single", "list"][n % 3]
+                        outs = None if oshape == "none" else valid(1 if oshape == "single" else 2)
+                        yield mk(lst, shape, outs, oshape, bad=f"in:{kind}", warm=(n % 5 == 0))
+
+
+def corpus_histories(ctx: Ctx):
+    """use -> change the circuit the Simulator works on -> use again: the SAME request (same State
+    objects) on two circuits with the same number of user modes but different herald layout / loss"""
+    rng = random.Random(f"C03-corpus-hist-{ctx.seed}")
+    circs = [(name, prog, fg.build_impl(prog)["c1"]) for name, prog in corpus_circuits()]
+    for na, pa, ca in circs:
+        for nb, pb, cb in circs:
+            if na == nb or ca.input_modes != cb.input_modes:
+                continue
+            im = ca.input_modes
+            nph = max(0, min(2, 4 - max(fg.herald_photons(ca), fg.herald_photons(cb))))
+            ins = [fg.rand_state(rng, im, nph) for _ in range(2)]
+            for form in range(3):
+                outs = [None, [fg.rand_state(rng, im, nph)], [fg.rand_state(rng, im, nph) for _ in range(3)]][form]
+                req = {"inputs": ins if form else ins[:1], "outputs": outs,
+                       "in_shape": "list" if form else "single", "out_shape": ["none", "single", "list"][form],
+                       "in_ids": [1, 2] if form else [1], "out_ids": None if outs is None else [11, 12, 13][:len(outs)]}
+                yield {"prog": pb, **req, "bad": None, "corpus": f"{na}->{nb}", "history": [{"prog": pa, **req}]}
+
+
+# --------------------------------------------------------------------------- one case
+
+
+def request_validity(im: int, ins: list, outs) -> str:
+    """the property's rejection clause on the plain occupation lists (independent of the model)"""
+    for side, lst in (("input", ins), ("output", outs or [])):
+        for k, s in enumerate(lst):
+            if len(s) != im:
+                return f"invalid: {side}[{k}]={s} has {len(s)} modes, circuit has {im}"
+            for v in s:
+                if not is_int(v):
+                    return f"invalid: {side}[{k}]={s} has a non-integer occupation"
+                if v < 0:
+                    return f"invalid: {side}[{k}]={s} has a negative occupation"
+    allst = list(ins) + list(outs or [])
+    if not ins:
+        return "degenerate"  # no input state: nothing to compute and nothing to reject; correspondence only
+    if len({sum(s) for s in allst}) > 1:
+        return "invalid: photon numbers differ"
+    return "valid"
+
+
+def build_side(states, ids, shape: str, objs: dict):
+    if states is None:
+        return None
+    lst = []
+    for k, s in enumerate(states):
+        oid = ids[k] if ids and k < len(ids) else None
+        if oid is None:
+            lst.append(to_state(s))
+        else:  # equal id AND equal content -> the same State object
+            key = (oid, repr(s))
+            if key not in objs:
+                objs[key] = to_state(s)
+            lst.append(objs[key])
+    if shape == "single" and len(lst) == 1:
+        return lst[0]
+    if shape == "tuple":
+        return tuple(lst)
+    return lst
+
+
+def valid_form(c, case: dict):
+    """the request with every invalid state replaced by a valid one (for the warm-up call)"""
+    im = c.input_modes
+    good = [s for s in case["inputs"] + (case["outputs"] or [])
+            if len(s) == im and all(is_int(v) and v >= 0 for v in s)]
+    nph = sum(good[0]) if good else 0
+    rep = good[0] if good else [nph] + [0] * (im - 1)
+
+    def fix(lst):
+        return None if lst is None else [s if (len(s) == im and all(is_int(v) and v >= 0 for v in s)
+                                                 and sum(s) == nph) else list(rep) for s in lst]
+
+    return fix(case["inputs"]), fix(case["outputs"])
 
 
 def run_case(ctx: Ctx, case: dict) -> list[str]:
@@ -86,53 +462,105 @@ def run_case(ctx: Ctx, case: dict) -> list[str]:
     if c.input_modes == 0:
         return probs  # fock_basis(0, n) does not terminate in the code; excluded (documented)
     ins, outs = case["inputs"], case["outputs"]
+    in_shape, out_shape = case.get("in_shape", "list"), case.get("out_shape", "list")
+    has_tuple = "tuple" in (in_shape, out_shape if outs is not None else "")
+    shapes = f"inputs as {in_shape}, outputs as {'None' if outs is None else out_shape}"
+    res = None
     try:
-        # half of the cases go through ONE long-lived Simulator whose circuit is reassigned, so that
-        # anything memoised per object across circuits shows up
-        if case.get("shared_sim"):
-            sim = getattr(ctx, "_shared_sim", None)
+        # history: the same Simulator first serves the recorded requests on other circuits
+        objs: dict = {}
+        sim = None
+        for h in case.get("history") or []:
+            hc = fg.build_impl(h["prog"]).get("c1")
+            if hc is None or hc.input_modes == 0:
+                continue
             if sim is None:
-                sim = emulator.Simulator(c)
-                ctx._shared_sim = sim
-            sim.circuit = c
-        else:
+                sim = emulator.Simulator(hc)
+            else:
+                sim.circuit = hc
+            try:
+                sim.simulate(build_side(h["inputs"], h.get("in_ids"), h.get("in_shape", "list"), objs),
+                             build_side(h["outputs"], h.get("out_ids"), h.get("out_shape", "list"), objs))
+            except Exception:  # noqa: BLE001
+                pass
+        if sim is None:
             sim = emulator.Simulator(c)
-        res = sim.simulate([to_state(s) for s in ins],
-                                             None if outs is None else [to_state(s) for s in outs])
+        else:
+            sim.circuit = c
+        if case.get("warm"):
+            wi, wo = valid_form(c, case)
+            try:
+                sim.simulate(build_side(wi, case.get("in_ids"), "list", objs),
+                             build_side(wo, case.get("out_ids"), "list", objs))
+            except Exception:  # noqa: BLE001
+                pass
+        res = sim.simulate(build_side(ins, case.get("in_ids"), in_shape, objs),
+                           build_side(outs, case.get("out_ids"), out_shape, objs))
         impl = {"inputs": [s.s for s in res.inputs], "outputs": [s.s for s in res.outputs],
                 "array": np.array(res.array)}
     except Exception as e:  # noqa: BLE001
         impl = {"error": exc_class(e)}
+    validity = request_validity(c.input_modes, ins, outs)
+    a = impl.get("error", "ok")
+    # ---- the rejection clause on the implementation alone
+    if validity.startswith("invalid") and a == "ok":
+        probs.append(f"oracle: invalid request computed instead of rejected ({shapes}): {validity}")
+        return probs
+    if validity == "valid" and a != "ok" and not (has_tuple and a == "TypeError"):
+        probs.append(f"oracle: valid request rejected with {a} ({shapes}): inputs {ins} outputs {outs}")
+        return probs
     m = ctx.model.call({"op": "fock", "what": "sim", "prog": case["prog"], "id": "c1",
                         "inputs": [occ_json(s) for s in ins],
                         "outputs": None if outs is None else [occ_json(s) for s in outs]})
-    if "error" in impl or "error_class" in m:
-        a, b = impl.get("error", "ok"), m.get("error_class", "ok")
-        if a != b:
-            kind = "oracle" if (case["bad"] and a == "ok") else "corr"
-            probs.append(f"{kind}: simulate outcome impl={a} model={b} (malformed={case['bad']})")
+    b = m.get("error_class", "ok")
+    if validity != "degenerate" and (b == "ok") != (validity == "valid"):
+        probs.append(f"corr: model outcome {b} but the rejection clause says the request is {validity}")
+        return probs
+    if a != "ok" or b != "ok":
+        if has_tuple and a == "TypeError":
+            ctx.count("tuple:rejected_as_TypeError")
+        elif a != b:
+            probs.append(f"corr: simulate outcome impl={a} model={b} (malformed={case['bad']}, {shapes})")
+        return probs
+    if has_tuple:
+        ctx.count("tuple:accepted_and_checked")
+    # ---- labels and shape of the result
+    if impl["inputs"] != [list(s) for s in ins] or (outs is not None and impl["outputs"] != [list(s) for s in outs]):
+        probs.append(f"oracle: the result's inputs/outputs {impl['inputs']}/{impl['outputs']} are not the "
+                     f"requested ones {ins}/{outs} ({shapes})")
         return probs
     if impl["inputs"] != m["inputs"] or impl["outputs"] != m["outputs"]:
         probs.append("corr: order/content of the result's input/output lists differs from the model")
         return probs
+    arr = impl["array"]
+    if arr.shape != (len(impl["inputs"]), len(impl["outputs"])):
+        probs.append(f"oracle: array shape {arr.shape} for {len(impl['inputs'])} inputs and "
+                     f"{len(impl['outputs'])} outputs ({shapes})")
+        return probs
     u = np.array(c.U_full)
     hin, hout = c.heralds["input"], c.heralds["output"]
     nloss = u.shape[0] - c.n_modes
-    arr = impl["array"]
     for i, s in enumerate(impl["inputs"]):
         fs = fg.add_heralds(s, hin) + [0] * nloss
         for j, t in enumerate(impl["outputs"]):
             ft = fg.add_heralds(t, hout) + [0] * nloss
             ref = fg.ref_amplitude(u, fs, ft)
             if abs(arr[i, j] - ref) > 1e-9:
-                probs.append(f"oracle: amplitude {s}->{t} = {arr[i, j]:.6g} but perm(U_full[{ft}|{fs}])/sqrt(fact) = {ref:.6g}")
+                probs.append(f"oracle: amplitude [{i},{j}] {s}->{t} = {arr[i, j]:.6g} but perm(U_full[{ft}|{fs}])/sqrt(fact) = {ref:.6g} ({shapes})")
+                return probs
+            try:
+                got = res[to_state(s), to_state(t)]
+            except Exception as e:  # noqa: BLE001
+                got = exc_class(e)
+            if isinstance(got, str) or abs(got - ref) > 1e-9:
+                probs.append(f"oracle: result[{s}, {t}] = {got} but perm(U_full[{ft}|{fs}])/sqrt(fact) = {ref:.6g} ({shapes})")
                 return probs
             num, nsq = m["amps"][i][j]
             mv = complex(GQ.parse(num)) / math.sqrt(nsq)
             if abs(arr[i, j] - mv) > 1e-9:
                 probs.append(f"corr: amplitude {s}->{t} impl={arr[i, j]:.6g} model={mv:.6g}")
                 return probs
-    if outs is None and nloss == 0 and not hin:
+    if outs is None and nloss == 0 and not hin and impl["inputs"]:
         for i, s in enumerate(impl["inputs"]):
             nrm = float(np.sum(np.abs(arr[i, :]) ** 2))
             if abs(nrm - 1) > 1e-9:
@@ -143,10 +571,115 @@ def run_case(ctx: Ctx, case: dict) -> list[str]:
     return probs
 
 
+# --------------------------------------------------------------------------- run
+
+
+def shrink_request(ctx: Ctx, case: dict) -> dict:
+    """drop states of the request that are not needed for the problem (lists only)"""
+    cur = case
+    for key, ikey, skey in (("inputs", "in_ids", "in_shape"), ("outputs", "out_ids", "out_shape")):
+        if cur.get(key) is None or cur.get(skey, "list") == "single":
+            continue
+        k = 0
+        while k < len(cur[key]) and len(cur[key]) > 1:
+            ids = cur.get(ikey) or [None] * len(cur[key])
+            cand = {**cur, key: cur[key][:k] + cur[key][k + 1:], ikey: ids[:k] + ids[k + 1:]}
+            if run_case(ctx, cand):
+                cur = cand
+            else:
+                k += 1
+    if cur.get("warm") and run_case(ctx, {**cur, "warm": False}):
+        cur = {**cur, "warm": False}
+    while cur.get("history"):
+        for k in range(len(cur["history"])):
+            cand = {**cur, "history": cur["history"][:k] + cur["history"][k + 1:]}
+            if run_case(ctx, cand):
+                cur = cand
+                break
+        else:
+            break
+    return cur
+
+
+def handle(ctx: Ctx, case: dict, index: int) -> None:
+    probs = run_case(ctx, case)
+    prog = case["prog"]
+    first = (case["inputs"] or case["outputs"] or [[]])[0]
+    nph = photons_of(first)
+    nontriv = nph >= 2 and any(op[0] in ("bs", "unitary") for op in prog)
+    bad = case.get("bad")
+    outs = case["outputs"]
+    in_shape = case.get("in_shape", "list")
+    out_shape = "none" if outs is None else case.get("out_shape", "list")
+    ctx.count("malformed:" + str(bad))
+    ctx.count(f"shape:in={in_shape},out={out_shape}")
+    if bad:
+        side = bad.split(":")[0]
+        lst = case["inputs"] if side == "in" else (outs or [])
+        shp = in_shape if side == "in" else out_shape
+        ctx.count(f"malformed_{side}_as:{shp}{'' if shp == 'single' else ':len' + str(min(len(lst), 3))}")
+    ctx.count(f"photons:{nph}")
+    if case.get("warm"):
+        ctx.count("history:valid_call_first")
+    if case.get("history"):
+        ctx.count(f"history:simulator_served_{len(case['history'])}_other_circuits_first")
+    for key, ikey in (("inputs", "in_ids"), ("outputs", "out_ids")):
+        lst, ids = case.get(key) or [], case.get(ikey) or []
+        if not lst and case.get(key) is not None:
+            ctx.count(f"empty:{key}")
+        reps = [(p, q) for p in range(len(lst)) for q in range(p) if repr(lst[p]) == repr(lst[q])]
+        if any(ids[p] == ids[q] for p, q in reps if p < len(ids) and q < len(ids)):
+            ctx.count(f"repeated_same_object:{key}")
+        if any(ids[p] != ids[q] for p, q in reps if p < len(ids) and q < len(ids)):
+            ctx.count(f"repeated_equal_object:{key}")
+    if outs and set(case.get("in_ids") or []) & set(case.get("out_ids") or []):
+        ctx.count("object_shared_between_inputs_and_outputs")
+    hs = [op[2] for op in prog if op[0] == "herald"]
+    if hs:
+        ctx.count("with_heralds")
+        ctx.count(f"max_herald_photons:{max(hs)}")
+        if any(op[0] == "herald" and op[3] != op[4] for op in prog):
+            ctx.count("with_heralds_in!=out")
+    if any(fg.is_lossy(op) for op in prog):
+        ctx.count("with_loss")
+    ctx.case(json.dumps(case, default=str), nontriv, sample=case if index < 2 else None)
+    if not probs:
+        return
+    ctx.count("cases_with_problems")
+
+    def still(sub):
+        return cg.well_formed(sub) and bool(run_case(ctx, {**case, "prog": sub}))
+
+    small = ddmin(prog, still)
+    scase = shrink_request(ctx, {**case, "prog": small})
+    sprobs = run_case(ctx, scase) or probs
+    oracle = [p for p in sprobs if p.startswith("oracle")]
+    if oracle:
+        ctx.violation(oracle[0], {"case": scase, "problems": sprobs}, sig={"kind": oracle[0][8:30]})
+    else:
+        ctx.disagreement(sprobs[0], {"case": scase, "problems": sprobs})
+
+
 def run(ctx: Ctx) -> None:
-    ctx.rule = ("circuits from the C02 tree generator (heralds in != out, loss, groups), inputs with 0-4 photons "
-                "(bunched, vacuum), explicit output lists or None, ~20% malformed; non-trivial = >= 2 photons in a "
-                "circuit with a beam splitter or unitary block; distinct = distinct (program, inputs, outputs)")
+    ctx.rule = ("directed corpus first (fixed lossless / lossy / heralded circuits with 0-3 herald photons, in != out: "
+                "every argument shape of simulate(inputs, outputs) — bare State, list, tuple, None, empty, repeated "
+                "equal States as same / distinct objects — x every kind of invalid state x position), then circuits "
+                "from the C02 tree generator (heralds in != out with 0-3 photons, loss, groups), requests with 0-4 "
+                "photons (bunched, vacuum) in random shapes, ~30% with one invalid state; non-trivial = >= 2 photons "
+                "in a circuit with a beam splitter or unitary block; distinct = distinct (program, request)")
+    k = 0
+    for case in corpus(ctx):
+        if ctx.out_of_time():
+            break
+        ctx.count("corpus_cases")
+        handle(ctx, case, 10 + k)
+        k += 1
+    for case in corpus_histories(ctx):
+        if ctx.out_of_time():
+            break
+        ctx.count("corpus_history_cases")
+        handle(ctx, case, 10 + k)
+        k += 1
     N = ctx.n(220, 5000)
     rng = ctx.rng
     for i in range(N):
@@ -156,31 +689,7 @@ def run(ctx: Ctx) -> None:
         if case is None:
             ctx.count("skipped:too_many_herald_photons")
             continue
-        probs = run_case(ctx, case)
-        prog = case["prog"]
-        nph = sum(x for x in case["inputs"][0] if isinstance(x, int) and not isinstance(x, bool))
-        nontriv = nph >= 2 and any(op[0] in ("bs", "unitary") for op in prog)
-        ctx.count("malformed:" + str(case["bad"]))
-        ctx.count(f"photons:{nph}")
-        if any(op[0] == "herald" for op in prog):
-            ctx.count("with_heralds")
-        if any(fg.is_lossy(op) for op in prog):
-            ctx.count("with_loss")
-        ctx.case(json.dumps(case, default=str), nontriv, sample=case if i < 2 else None)
-        if probs:
-            ctx.count("cases_with_problems")
-
-            def still(sub):
-                return cg.well_formed(sub) and bool(run_case(ctx, {**case, "prog": sub}))
-
-            small = ddmin(prog, still)
-            scase = {**case, "prog": small}
-            sprobs = run_case(ctx, scase) or probs
-            oracle = [p for p in sprobs if p.startswith("oracle")]
-            if oracle:
-                ctx.violation(oracle[0], {"case": scase, "problems": sprobs}, sig={"kind": oracle[0][8:30]})
-            else:
-                ctx.disagreement(sprobs[0], {"case": scase, "problems": sprobs})
+        handle(ctx, case, i)
 
 
 def replay(ctx: Ctx, path: str) -> None:
